@@ -152,54 +152,86 @@ def Hier.shapeOk (H : Hier) (c d : Nat) (m : BaseArg) : Bool :=
   | .param => H.generic c && H.generic d
   | .const a => H.generic d && H.classes.contains a && !H.generic a
 
-/-- The hypotheses about the class table under which the laws are proved (a finite, executable check: the
-    driver evaluates it on the table exported from the real `TypeInfo`s on every run). -/
-def Hier.ok (H : Hier) : Bool :=
+/-! The hypotheses about the class table under which the laws are proved: a finite, executable check
+    (`Hier.ok`) that the driver evaluates on the table exported from the real `TypeInfo`s on every run. -/
+
+/-- the special classes exist with the right arity; object has no bases -/
+def Hier.okSpecial (H : Hier) : Bool :=
   let cs := H.classes
   cs.contains H.objectC && !H.generic H.objectC && (H.bases H.objectC).isEmpty
   && cs.contains H.tupleC && H.generic H.tupleC && H.tupleLike H.tupleC
   && cs.contains H.functionC && !H.generic H.functionC
   && cs.contains H.typeC && !H.generic H.typeC
-  && cs.all (fun c =>
-      -- reflexive; object on top; mappings well-shaped and closed
-      H.sup c c == some (if H.generic c then .param else .na)
-      && H.sup c H.objectC == some .na
-      && cs.all (fun d => match H.sup c d with
-          | none => true
-          | some m => H.shapeOk c d m
-              -- transitive and coherent: the mapping to a superclass of a superclass is the composition
-              && cs.all (fun e => match H.sup d e with
-                  | none => true
-                  | some m2 => H.sup c e == some (m.comp m2))
-              -- declared variances agree along a passed-through parameter
-              && (m != .param || H.variance c == .inv || H.variance c == H.variance d)
-              -- antisymmetric
-              && (c == d || H.sup d c == none)
-              -- mro lengths grow strictly downwards
-              && (c == d || H.mroLen d < H.mroLen c)
-              -- every proper superclass is reached through a direct base
-              && (c == d || (H.bases c).any (fun b => (H.sup b d).isSome)))
-      -- direct bases are superclasses inside the table; only object has none
-      && (H.bases c).all (fun b => cs.contains b && b != c && (H.sup c b).isSome)
-      && (c == H.objectC || !(H.bases c).isEmpty)
-      -- nothing outside the table is a superclass
-      && true)
-  -- tuple-like classes are covariant generics closed upwards (among generic superclasses); their only
-  -- non-generic superclass is object
-  && cs.all (fun d => !H.tupleLike d ||
-      (H.generic d && H.variance d == .co
-       && cs.all (fun e => match H.sup d e with
-          | none => true
-          | some .na => e == H.objectC
-          | some .param => H.tupleLike e
-          | some (.const _) => false)))
-  -- every generic superclass of builtins.tuple is tuple-like (checked above via tupleLike tupleC);
-  -- builtins.function and builtins.type have no subclasses and only object above them
-  && cs.all (fun c =>
-      (H.sup c H.functionC == none || c == H.functionC)
-      && (H.sup H.functionC c == none || c == H.functionC || c == H.objectC)
-      && (H.sup c H.typeC == none || c == H.typeC)
-      && (H.sup H.typeC c == none || c == H.typeC || c == H.objectC))
+
+/-- `sup` is reflexive with the identity mapping, has object on top, is well-shaped, transitive with
+    composed mappings, antisymmetric; declared variances agree along a passed-through parameter -/
+def Hier.okSup (H : Hier) : Bool :=
+  let cs := H.classes
+  cs.all (fun c =>
+    H.sup c c == some (if H.generic c then .param else .na)
+    && H.sup c H.objectC == some .na
+    && cs.all (fun d => match H.sup c d with
+        | none => true
+        | some m => H.shapeOk c d m
+            && cs.all (fun e => match H.sup d e with
+                | none => true
+                | some m2 => H.sup c e == some (m.comp m2))
+            && (m != .param || H.variance c == .inv || H.variance c == H.variance d)
+            && (c == d || H.sup d c == none)))
+
+/-- direct bases are proper superclasses inside the table; only object has none; mro lengths grow strictly
+    downwards; every proper superclass is reached through a direct base -/
+def Hier.okBases (H : Hier) : Bool :=
+  let cs := H.classes
+  cs.all (fun c =>
+    (H.bases c).all (fun b => cs.contains b && b != c && (H.sup c b).isSome)
+    && (c == H.objectC || !(H.bases c).isEmpty)
+    && cs.all (fun d => match H.sup c d with
+        | none => true
+        | some _ => c == d || (H.mroLen d < H.mroLen c && (H.bases c).any (fun b => (H.sup b d).isSome))))
+
+/-- tuple-like classes are covariant generics closed upwards among generic superclasses; their only
+    non-generic superclass is object -/
+def Hier.okTupleLike (H : Hier) : Bool :=
+  let cs := H.classes
+  cs.all (fun d => !H.tupleLike d ||
+    (H.generic d && H.variance d == .co
+     && cs.all (fun e => match H.sup d e with
+        | none => true
+        | some .na => e == H.objectC
+        | some .param => H.tupleLike e
+        | some (.const _) => false)))
+
+/-- builtins.function and builtins.type have no subclasses and only object above them; no class is
+    instantiated over builtins.function -/
+def Hier.okFunType (H : Hier) : Bool :=
+  let cs := H.classes
+  cs.all (fun c =>
+    (H.sup c H.functionC == none || c == H.functionC)
+    && (H.sup H.functionC c == none || c == H.functionC || c == H.objectC)
+    && (H.sup c H.typeC == none || c == H.typeC)
+    && (H.sup H.typeC c == none || c == H.typeC || c == H.objectC)
+    && cs.all (fun d => H.sup c d != some (.const H.functionC)))
+
+def Hier.ok (H : Hier) : Bool :=
+  H.okSpecial && H.okSup && H.okBases && H.okTupleLike && H.okFunType
+
+mutual
+/-- `builtins.function` (not denotable in source; the fallback of callables) does not occur -/
+def Ty.noFunc (H : Hier) : Ty → Bool
+  | .never => true
+  | .none => true
+  | .inst c => c != H.functionC
+  | .gen _ a => a.noFunc H
+  | .union is => noFuncL H is
+  | .tuple is => noFuncL H is
+  | .callable as r => noFuncL H as && r.noFunc H
+  | .lit c _ => c != H.functionC
+  | .typeType i => i.noFunc H
+def noFuncL (H : Hier) : List Ty → Bool
+  | [] => true
+  | t :: ts => t.noFunc H && noFuncL H ts
+end
 
 mutual
 /-- well-formed terms: classes from the table used with the right arity; unions flattened
